@@ -113,7 +113,10 @@ def main():
         src, sid, prop = a.args
         sdir = os.path.join(HERE, 'seeded', sid)
         os.makedirs(sdir, exist_ok=True)
-        shutil.copy(os.path.join(src, 'seed_patch.diff'), os.path.join(sdir, 'patch.diff'))
+        pf = os.path.join(src, 'seed_patch.diff')
+        if not os.path.exists(pf):
+            pf = os.path.join(src, 'patch.diff')
+        shutil.copy(pf, os.path.join(sdir, 'patch.diff'))
         shutil.copy(os.path.join(src, 'demo.py'), os.path.join(sdir, 'demo.py'))
         try:
             meta = json.load(open(os.path.join(src, 'meta.json')))
@@ -121,7 +124,10 @@ def main():
             meta = {}
         meta['property'] = prop
         meta['origin'] = 'independent sub-agent given only the property text and a scratch worktree'
-        meta['worktree_paths'] = [os.path.abspath(src)]
+        wt = os.path.abspath(src)
+        if os.path.basename(wt) == '_seed':
+            wt = os.path.dirname(wt)
+        meta['worktree_paths'] = [wt]
         json.dump(meta, open(os.path.join(sdir, 'meta.json'), 'w'), indent=1)
         verify(sid, checks, a.tier, tests=not a.no_tests)
     elif a.cmd == 'verify':
